@@ -110,11 +110,13 @@ pub struct GenCfg {
   pub replays: u8,
   /// Many tasks over few resources, bursts of changes: large scheduled sets in bottom-up builds.
   pub big: bool,
+  /// Also use wrapper families around the inner type of family 0 (identity probes).
+  pub wrappers: bool,
 }
 
 impl Default for GenCfg {
   fn default() -> Self {
-    GenCfg { class: Class::W, bottom_up: 0, td_between: false, all_roots_td: false, crash: false, check_errors: false, rw_errors: false, exact_only_pct: 40, sim_fams_only: true, replays: 0, big: false }
+    GenCfg { class: Class::W, bottom_up: 0, td_between: false, all_roots_td: false, crash: false, check_errors: false, rw_errors: false, exact_only_pct: 40, sim_fams_only: true, replays: 0, big: false, wrappers: false }
   }
 }
 
@@ -256,11 +258,11 @@ fn always_required(ops: &[Op], chain: &BTreeMap<Tid, BTreeSet<Tid>>) -> BTreeSet
   s
 }
 
-pub fn gen_keys(rng: &mut Rng, ntasks: usize, nres: usize, sim_only: bool) -> (Vec<TaskKey>, Vec<ResKey>) {
+pub fn gen_keys(rng: &mut Rng, ntasks: usize, nres: usize, sim_only: bool, wrappers: bool) -> (Vec<TaskKey>, Vec<ResKey>) {
   // Ids are drawn from a small range so that different families share ids (identity = (type, value)).
   let mut tasks = vec![];
   while tasks.len() < ntasks {
-    let k = TaskKey { fam: rng.below(5) as u8, id: rng.below(4) as u32 };
+    let k = if wrappers { TaskKey { fam: *rng.pick(&[0u8, 0, 5, 5, 6, 1, 2]), id: rng.below(2) as u32 } } else { TaskKey { fam: rng.below(5) as u8, id: rng.below(4) as u32 } };
     if !tasks.contains(&k) { tasks.push(k); }
   }
   let mut res = vec![];
@@ -279,7 +281,7 @@ pub fn gen_program_w(rng: &mut Rng, cfg: &GenCfg) -> Program {
 
 pub fn gen_program_w_sized(rng: &mut Rng, cfg: &GenCfg, ntasks: usize, nres: usize) -> Program {
   let exact_only = rng.chance(cfg.exact_only_pct);
-  let (keys, resources) = gen_keys(rng, ntasks, nres, cfg.sim_fams_only);
+  let (keys, resources) = gen_keys(rng, ntasks, nres, cfg.sim_fams_only, cfg.wrappers);
   let mut writer = BTreeMap::new();
   let mut wchk = BTreeMap::new();
   let gen_pct = if cfg.big { rng.range(0, 35) } else { rng.range(20, 60) };
